@@ -59,8 +59,10 @@ def hMatch : Handler := fun impl => do
 def hDropPort : Handler := fun _ => do
   let s ← pBytes
   match dropPort s with
-  | .ok r => return { model := s!"ok {toHex r}", label := if s.head? = some 91 then "bracket" else "plain" }
-  | .panic _ => return { model := "panic", label := "panic" }
+  | .ok r =>
+    let label := if s.head? = some 91 then (if s.contains 93 then "bracket" else "bracket-unclosed") else "plain"
+    return { model := s!"ok {toHex r}", label := label }
+  | .panic _ => return { model := "panic", label := "panic" }   -- unreachable: `dropPort` has no panic site left
 
 def hScheme : Handler := fun _ => do
   let tls ← pBool
